@@ -64,6 +64,12 @@ pub enum K {
     NewTask,
     PollTask,
     DropTask,
+    EmptyParents,
+    TeardownLate,
+    LocalBurst,
+    ScopeBurst,
+    Collect,
+    UnwindScope,
 }
 
 #[derive(Clone)]
@@ -92,6 +98,9 @@ pub struct Profile {
     pub late_reporter_pct: u64,
     pub noop_pct: u64,
     pub task_wraps: &'static [Wrap],
+    pub reentrant_pct: u64,
+    pub no_reporter_pct: u64,
+    pub teardown_early_pct: u64,
 }
 
 pub const EPS_NS: u64 = 30_000;
@@ -138,6 +147,9 @@ pub fn base_profile(prop: &'static str) -> Profile {
         late_reporter_pct: 0,
         noop_pct: 0,
         task_wraps: &[Wrap::InSpan, Wrap::EnterOnPoll, Wrap::InSpanEnterOnPoll],
+        reentrant_pct: 0,
+        no_reporter_pct: 0,
+        teardown_early_pct: 0,
     }
 }
 
@@ -263,6 +275,7 @@ const W_STATE: &[(K, u64)] = &[
 ];
 
 const W_SCOPES: &[(K, u64)] = &[
+    (K::UnwindScope, 4),
     (K::Root, 5),
     (K::Child, 6),
     (K::ChildLocal, 10),
@@ -298,6 +311,7 @@ const W_CTX: &[(K, u64)] = &[
 ];
 
 const W_LAZY: &[(K, u64)] = &[
+    (K::UnwindScope, 4),
     (K::Root, 8),
     (K::Noop, 6),
     (K::Child, 12),
@@ -336,10 +350,48 @@ const W_ASYNC: &[(K, u64)] = &[
     (K::Join, 1),
 ];
 
+const W_API: &[(K, u64)] = &[
+    (K::UnwindScope, 3),
+    (K::Root, 8),
+    (K::Noop, 3),
+    (K::EmptyParents, 5),
+    (K::Child, 9),
+    (K::ChildLocal, 6),
+    (K::Finish, 9),
+    (K::Cancel, 2),
+    (K::Elapsed, 2),
+    (K::SetLocalParent, 9),
+    (K::LocalEnter, 9),
+    (K::LocalWithProps, 4),
+    (K::StartCollector, 3),
+    (K::Pop, 20),
+    (K::AddProps, 5),
+    (K::AddEvent, 4),
+    (K::LocalAddEvent, 5),
+    (K::LocalAddProps, 6),
+    (K::CtxSpan, 4),
+    (K::CtxCurrent, 8),
+    (K::RootFromCtx, 2),
+    (K::Push, 2),
+    (K::ToRecords, 1),
+    (K::NewTask, 2),
+    (K::PollTask, 5),
+    (K::DropTask, 1),
+    (K::TeardownLate, 2),
+    (K::LocalBurst, 1),
+    (K::ScopeBurst, 1),
+    (K::Cycle, 2),
+    (K::Flush, 2),
+    (K::Sleep, 1),
+    (K::Exit, 2),
+    (K::Join, 1),
+];
+
 const W_SETS: &[(K, u64)] = &[
     (K::Root, 8),
-    (K::Child, 6),
-    (K::Finish, 8),
+    (K::Child, 10),
+    (K::Finish, 12),
+    (K::Collect, 6),
     (K::StartCollector, 10),
     (K::LocalEnter, 16),
     (K::LocalWithProps, 3),
@@ -355,6 +407,7 @@ const W_SETS: &[(K, u64)] = &[
 ];
 
 const W_TIMES: &[(K, u64)] = &[
+    (K::Collect, 5),
     (K::Root, 6),
     (K::Child, 8),
     (K::ChildLocal, 4),
@@ -465,6 +518,24 @@ pub fn profile(prop: &str) -> Profile {
             stall_pct: 0,
             ..b
         },
+        "C07" => Profile {
+            prop: "C07",
+            callers: (0, 3),
+            ops: (10, 70),
+            cancelable_pct: 40,
+            weights: W_API,
+            ring_caps: &[(0, 4), (2, 1), (3, 1), (8, 1)],
+            props_pct: 60,
+            reentrant_pct: 50,
+            no_reporter_pct: 15,
+            late_reporter_pct: 25,
+            teardown_early_pct: 25,
+            unsampled_pct: 20,
+            stall_pct: 40,
+            live_tail: false,
+            max_depth: 8,
+            ..b
+        },
         "C13" => Profile {
             prop: "C13",
             callers: (0, 3),
@@ -540,6 +611,7 @@ struct Gen<'a> {
     next_trace: usize,
     ntraces: usize,
     interval: u64,
+    bursts: u32,
 }
 
 impl<'a> Gen<'a> {
@@ -591,6 +663,19 @@ impl<'a> Gen<'a> {
                 _ => None,
             })
             .collect()
+    }
+
+    fn maybe_inner(&mut self, props: u8) -> Vec<Op> {
+        if props > 0 && self.p.reentrant_pct > 0 && self.rng.pct(self.p.reentrant_pct) {
+            let mut b = self.gen_body();
+            if b.is_empty() {
+                let ctx = self.new_slot();
+                b.push(Op::CtxCurrent { ctx });
+            }
+            b
+        } else {
+            vec![]
+        }
     }
 
     fn gen_body(&mut self) -> Vec<Op> {
@@ -708,7 +793,10 @@ impl<'a> Gen<'a> {
                 self.next_trace += 1;
                 let slot = self.new_slot();
                 let props = self.nprops();
-                self.push(t, Op::Root { slot, trace: tr, props })
+                {
+                    let inner = self.maybe_inner(props);
+                    self.push_inner(t, Op::Root { slot, trace: tr, props }, inner)
+                }
             }
             K::Noop => {
                 let slot = self.new_slot();
@@ -759,7 +847,8 @@ impl<'a> Gen<'a> {
                 }
                 let slot = self.new_slot();
                 let props = self.nprops();
-                self.push(
+                let inner = self.maybe_inner(props);
+                self.push_inner(
                     t,
                     Op::Child {
                         slot,
@@ -767,12 +856,14 @@ impl<'a> Gen<'a> {
                         multi,
                         props,
                     },
+                    inner,
                 )
             }
             K::ChildLocal => {
                 let slot = self.new_slot();
                 let props = self.nprops();
-                self.push(t, Op::ChildLocal { slot, props })
+                let inner = self.maybe_inner(props);
+                self.push_inner(t, Op::ChildLocal { slot, props }, inner)
             }
             K::AddProps | K::AddEvent | K::Cancel | K::Elapsed | K::SetLocalParent | K::CtxSpan => {
                 let live = self.live_spans();
@@ -783,11 +874,13 @@ impl<'a> Gen<'a> {
                 match k {
                     K::AddProps => {
                         let n = 1 + self.rng.below(3) as u8;
-                        self.push(t, Op::AddProps { slot, n })
+                        let inner = self.maybe_inner(n);
+                        self.push_inner(t, Op::AddProps { slot, n }, inner)
                     }
                     K::AddEvent => {
                         let n = self.nprops();
-                        self.push(t, Op::AddEvent { slot, n })
+                        let inner = self.maybe_inner(n);
+                        self.push_inner(t, Op::AddEvent { slot, n }, inner)
                     }
                     K::Cancel => self.push(t, Op::Cancel { slot }),
                     K::Elapsed => self.push(t, Op::Elapsed { slot }),
@@ -845,22 +938,26 @@ impl<'a> Gen<'a> {
                     return false;
                 }
                 let props = self.nprops();
-                self.push(t, Op::LocalEnter { props })
+                let inner = self.maybe_inner(props);
+                self.push_inner(t, Op::LocalEnter { props }, inner)
             }
             K::LocalWithProps => {
-                if !matches!(self.model.threads[t as usize].stack.last(), Some(LH::LSpan { .. })) {
+                if !matches!(self.model.threads[t as usize].stack.last(), Some(LH::LSpan { dead: false, .. })) {
                     return false;
                 }
                 let n = 1 + self.rng.below(2) as u8;
-                self.push(t, Op::LocalWithProps { n })
+                let inner = self.maybe_inner(n);
+                self.push_inner(t, Op::LocalWithProps { n }, inner)
             }
             K::LocalAddProps => {
                 let n = 1 + self.rng.below(2) as u8;
-                self.push(t, Op::LocalAddProps { n })
+                let inner = self.maybe_inner(n);
+                self.push_inner(t, Op::LocalAddProps { n }, inner)
             }
             K::LocalAddEvent => {
                 let n = self.nprops();
-                self.push(t, Op::LocalAddEvent { n })
+                let inner = self.maybe_inner(n);
+                self.push_inner(t, Op::LocalAddEvent { n }, inner)
             }
             K::StartCollector => {
                 if depth >= self.p.max_depth {
@@ -973,6 +1070,73 @@ impl<'a> Gen<'a> {
                 }
                 let task = *self.rng.pick(&ts);
                 self.push(t, Op::DropTask { task })
+            }
+            K::EmptyParents => {
+                // a span created from an empty or all-no-op parent set: it belongs to no trace
+                let slot = self.new_slot();
+                let mut parents = vec![];
+                if self.rng.pct(50) {
+                    let n = self.new_slot();
+                    if !self.push(t, Op::Noop { slot: n }) {
+                        return false;
+                    }
+                    parents.push(n);
+                }
+                let props = self.nprops();
+                let inner = self.maybe_inner(props);
+                self.push_inner(
+                    t,
+                    Op::Child {
+                        slot,
+                        parents,
+                        multi: true,
+                        props,
+                    },
+                    inner,
+                )
+            }
+            K::Collect => {
+                // only worth it when a local span is open above the scope
+                let st = &self.model.threads[t as usize].stack;
+                let pos = match st.iter().rposition(|h| matches!(h, LH::Guard { .. } | LH::Coll { .. })) {
+                    Some(p) => p,
+                    None => return false,
+                };
+                if pos + 1 == st.len() {
+                    return false;
+                }
+                let into = if matches!(st[pos], LH::Coll { .. }) && self.rng.pct(80) { Some(self.new_slot()) } else { None };
+                self.push(t, Op::Collect { into })
+            }
+            K::UnwindScope => {
+                let live = self.live_spans();
+                if live.is_empty() {
+                    return false;
+                }
+                let slot = *self.rng.pick(&live);
+                self.push(t, Op::UnwindScope { slot })
+            }
+            K::TeardownLate => self.push(t, Op::TeardownCalls { early: false }),
+            K::LocalBurst => {
+                if self.bursts >= 1 {
+                    return false;
+                }
+                self.bursts += 1;
+                let n = 10240 - 3 + self.rng.below(8) as u32;
+                self.push(t, Op::LocalBurst { n })
+            }
+            K::ScopeBurst => {
+                if self.bursts >= 1 {
+                    return false;
+                }
+                let live = self.live_spans();
+                if live.is_empty() {
+                    return false;
+                }
+                self.bursts += 1;
+                let slot = *self.rng.pick(&live);
+                let n = 4096 - 6 + self.rng.below(12) as u32;
+                self.push(t, Op::ScopeBurst { slot, n })
             }
             K::Join => {
                 let c: Vec<u8> = self
@@ -1095,6 +1259,7 @@ pub fn generate_with(p: &Profile, seed: u64) -> Case {
         next_trace: 0,
         ntraces,
         interval,
+        bursts: 0,
     };
     let late = g.rng.pct(p.late_reporter_pct);
     if late {
@@ -1105,13 +1270,16 @@ pub fn generate_with(p: &Profile, seed: u64) -> Case {
             g.try_kind(0, k);
         }
     }
-    g.push(
-        0,
-        Op::SetReporter {
-            cancelable,
-            interval_ns: interval,
-        },
-    );
+    let no_reporter = g.rng.pct(p.no_reporter_pct);
+    if !no_reporter {
+        g.push(
+            0,
+            Op::SetReporter {
+                cancelable,
+                interval_ns: interval,
+            },
+        );
+    }
     // spawn callers (most at the start, the rest later)
     let mut to_spawn: Vec<u8> = (1..nthreads as u8).collect();
     let mut warm: Vec<u8> = vec![];
@@ -1119,6 +1287,10 @@ pub fn generate_with(p: &Profile, seed: u64) -> Case {
         if g.rng.pct(80) {
             to_spawn.remove(0);
             g.push(0, Op::Spawn { t });
+            if g.rng.pct(p.teardown_early_pct) {
+                // must be the thread's first operation: registered before fastrace's thread-locals
+                g.push(t, Op::TeardownCalls { early: true });
+            }
             if g.rng.pct(p.warm_pct) {
                 warm.push(t);
             }
@@ -1199,6 +1371,11 @@ pub fn generate_with(p: &Profile, seed: u64) -> Case {
     g.push(0, Op::Flush);
     g.push(0, Op::Stats);
     g.push(0, Op::ThreadEnd);
+    let mut sched = sched;
+    if g.bursts > 0 {
+        // thousands of queue operations in one call: not a livelock
+        sched.max_steps = 2_000_000;
+    }
     Case {
         prop: p.prop.to_string(),
         seed,
